@@ -54,7 +54,7 @@ Print Assumptions C13_same_final_state_without_failing_statements.
    correspondence of harness/heapcorr.py).  [wf] is the heap invariant of Proofs/HeapP2.v (decidable: HeapWfb.wfb); every heap
    reached from the empty heap by leaf / operation / view / in-place statements satisfies it. *)
 From MG Require Model.Heap.
-From MG Require Import Proofs.HeapP1 Proofs.HeapWfb Proofs.HeapP2 Proofs.HeapP8 Proofs.HeapP9 Proofs.HeapP21.
+From MG Require Import Proofs.HeapP1 Proofs.HeapWfb Proofs.HeapP2 Proofs.HeapP8 Proofs.HeapP9 Proofs.HeapP21 Proofs.HeapCor.
 
 (* an in-place operation whose kernel raises returns every table of the heap -- tensors (creator, base, view children, consumer
    set, array, gradient flags), operations (variables), weak collections, arrays -- exactly as it was; only the allocation
@@ -81,6 +81,12 @@ Print Assumptions C13_heap_duplicate_then_restore_is_identity.
 Theorem C13_heap_reachable_heaps_are_wf : forall ss h', run_ok Heap.empty_heap ss -> Heap.run Heap.empty_heap ss = Some h' -> wf h'.
 Proof. exact wf_reachable. Qed.
 Print Assumptions C13_heap_reachable_heaps_are_wf.
+(* ... so: after ANY history of leaf / operation / view / in-place statements, a failing in-place statement is a no-op *)
+Theorem C13_heap_failed_inplace_after_any_history_is_noop :
+  forall ss h, run_ok Heap.empty_heap ss -> Heap.run Heap.empty_heap ss = Some h ->
+  forall m k inputs masked out, Heap.inplace h m k inputs masked true = Some out -> exists h', out = Heap.Raised h' /\ same_tables h h'.
+Proof. exact reachable_failed_inplace_noop. Qed.
+Print Assumptions C13_heap_failed_inplace_after_any_history_is_noop.
 Theorem C13_heap_wf_decidable : forall h, wfb h = true <-> wf h.
 Proof. exact wfb_wf. Qed.
 Print Assumptions C13_heap_wf_decidable.
